@@ -37,7 +37,23 @@ Error iff its handling raised, one Done with its id) on its own connection, in
 completion order; the node is not stopped by a failing message; the
 well-formed traffic of the other connections is unaffected by a connection
 that fails.  What happens to the bytes behind a frame that is not a message is
-compared with the model only (the property gives no guarantee there)."""
+compared with the model only (the property gives no guarantee there).
+
+Deferred completion (gen_server_defer_cases, same part / executor / oracle / driver): k >= 2 complete messages in
+ONE read, any subset of them failing, each at once or LATER — the type handler of such a message is played by
+the harness (it suspends on a Deferred the harness holds and fires, with a result or a failure, after the read
+has gone on or returned, in any order relative to the other suspended handlers and the later reads); everything
+around it is the real code (handle_netqasm_message, _handle_message, _mark_message_finished, the callbacks
+dataReceived attaches, log_error, _return_msg).  Every 2- and 3-message read x every outcome x every firing
+order; the same through the real handlers (StopApp of an application holding a qubit, further messages behind it
+in the same read, the backend refuses the measurement later).  The completion order is an input of the Lean
+driver too (events K<i>/Y<i>), so these cases are tied as well.
+
+A fifth stream (part `sockpoll`, ORACLE ONLY: the `sock` line protocol has no partial arrival) drives the real
+`Socket.recv/recv_structured(block=False)` while a message has only partly arrived: every split point (and pairs)
+of streams of 1-3 messages, polls before / between / after the parts, random larger streams over a scripted wire
+and a real non-blocking socketpair.  Oracle: a poll that finds no complete message raises BlockingIOError, the
+messages eventually returned are exactly the messages sent, in order."""
 import itertools
 import json
 import logging
@@ -61,6 +77,11 @@ TRUSTED = [
     "how a handler ends (returns / raises inside the executor / raises outside it) is an input of the framing model: "
     "planned by the generator for judged messages, observed on the real run for frames cut out of garbage",
     "an exception leaving dataReceived = twisted drops that connection (the harness stops feeding it)",
+    "deferred completion: the type handler (`_message_handlers[type]`) of a message of kind `scripted` is a generator "
+    "of the harness that yields a harness-held Deferred and/or raises; the code from dataReceived down to it and back "
+    "(inlineCallbacks wrapper, _handle_message, _mark_message_finished, callbacks/errbacks, log_error) is the real one",
+    "sockpoll: PollEnd stands for a TCP socket (BlockingIOError on an empty non-blocking read); cross-checked on a real "
+    "non-blocking socketpair; no Lean tie for this part",
 ]
 ASSUMPTIONS = [
     "message ids and lengths fit the u32 header fields; a host message is at most 4 GiB",
@@ -830,6 +851,177 @@ def gen_socket_cases(env, ctx):
 
 
 # ----------------------------------------------------------------------------
+# classical socket, polled: non-blocking receives while a message has only partly arrived (oracle only: the line
+# protocol of the `sock` driver puts whole framed messages on the wire, it has no partial arrival)
+# ----------------------------------------------------------------------------
+
+class PollEnd:
+    """receiving end over a scripted wire that honours setblocking: a read on an empty wire raises BlockingIOError
+    when the socket is non-blocking (as the OS does), `Blocked` when it is blocking (the real call would hang)"""
+
+    def __init__(self):
+        self.avail, self.blocking = b"", True
+
+    def arrive(self, data):
+        self.avail += data
+
+    def setblocking(self, flag):
+        self.blocking = bool(flag)
+
+    def recv(self, n):
+        if not self.avail:
+            if not self.blocking:
+                raise BlockingIOError(11, "Resource temporarily unavailable")
+            raise Blocked()
+        j = max(1, min(n, len(self.avail)))
+        out, self.avail = self.avail[:j], self.avail[j:]
+        return out
+
+    def close(self):
+        pass
+
+
+class RealPollEnd:
+    """a real socket; non-blocking is the real thing, a blocking read gives up after 0.25 s instead of hanging"""
+
+    def __init__(self, s, peer):
+        self.s, self.peer = s, peer
+
+    def arrive(self, data):
+        self.peer.sendall(data)
+
+    def setblocking(self, flag):
+        self.s.settimeout(0.25 if flag else 0.0)
+
+    def recv(self, n):
+        try:
+            return self.s.recv(n)
+        except BlockingIOError:
+            raise
+        except pysocket.timeout:
+            raise Blocked()
+
+    def close(self):
+        self.s.close(), self.peer.close()
+
+
+def poll_stream(env, specs):
+    """what the real Socket puts on the wire for these sends: (stream, end offset of every message, values)"""
+    S = env.sock_mod.Socket
+    w = Wire([])
+    a = make_socket(env, ScriptedEnd(w, Wire([])), [])
+    ends, values = [], []
+    for spec in specs:
+        v = msg_value(spec)
+        (a.send if spec[0] == "str" else a.send_structured)(v)
+        ends.append(len(w.data))
+        values.append(v)
+    return w.data, ends, values
+
+
+def exec_sockpoll(env, case):
+    stream, ends, values = poll_stream(env, case["msgs"])
+    if case["transport"] == "real":
+        sa, sb = pysocket.socketpair()
+        for x in (sa, sb):
+            x.setsockopt(pysocket.SOL_SOCKET, pysocket.SO_SNDBUF, 1 << 20)
+            x.setsockopt(pysocket.SOL_SOCKET, pysocket.SO_RCVBUF, 1 << 20)
+        end = RealPollEnd(sb, sa)
+    else:
+        end = PollEnd()
+    b = make_socket(env, end, [])
+    arrived, nrecv, results, complaints = 0, 0, [], []
+    ops = [list(o) for o in case["ops"]]
+    # after the scripted part: the rest arrives, every outstanding message is received, one poll more finds nothing
+    ops += [["A", len(stream)]] + [["R"]] * len(values) + [["P"]]
+    for op in ops:
+        if op[0] == "A":
+            n = min(op[1], len(stream) - arrived)
+            if n > 0:
+                end.arrive(stream[arrived:arrived + n])
+                arrived += n
+            continue
+        complete = nrecv < len(values) and ends[nrecv] <= arrived
+        if op[0] == "R" and not complete:
+            continue                                   # a blocking receive is only issued for a message that is there
+        structured = nrecv < len(values) and case["msgs"][nrecv][0] != "str"
+        try:
+            got = (b.recv_structured if structured else b.recv)(block=(op[0] == "R"), maxsize=case["maxsize"])
+            res = ("msg", got)
+        except BlockingIOError:
+            res = ("nothing-yet",)
+        except Blocked:
+            res = ("blocked",)
+        except Exception as e:
+            res = ("error", type(e).__name__)
+        results.append(res[0])
+        where = "%s %d (maxsize %d, %d of %d stream bytes arrived, message %d ends at byte %s)" % (
+            "poll" if op[0] == "P" else "blocking receive", len(results), case["maxsize"], arrived, len(stream),
+            nrecv + 1, ends[nrecv] if nrecv < len(ends) else "-")
+        if complete:
+            if res != ("msg", values[nrecv]):
+                if not complaints:
+                    complaints.append(("stream", "%s: message %d had arrived completely, got %s" % (
+                        where, nrecv + 1, res[0] if res[0] != "msg" else "another value (%d bytes where %d were sent)" % (
+                            len(str(res[1])), len(str(values[nrecv]))))))
+                break                                  # the stream is mis-framed from here on
+            nrecv += 1
+        elif res != ("nothing-yet",):
+            if not complaints:
+                complaints.append(("poll", "%s: no complete message is there, the poll must raise BlockingIOError; it %s" % (
+                    where, "returned a message" if res[0] == "msg" else "ended with " + str(res[-1]))))
+            break
+    end.close()
+    return {"results": results, "n": nrecv}, complaints
+
+
+def gen_sockpoll_cases(env, ctx):
+    rng = ctx.rng
+
+    def case(cls, msgs, ops, maxsize=1024, transport="scripted"):
+        return {"part": "sockpoll", "class": cls, "transport": transport, "msgs": msgs, "ops": ops, "maxsize": maxsize}
+
+    def polls(style, nmsg):
+        return [["P"]] * (nmsg + 1) if style == "drain" else [["P"]] if style == "once" else []
+    # (1) every split point of 1-3 short messages, a poll (or: polls until nothing is left) before / between / after
+    shapes = [[["str", 1, "a"]], [["str", 5, "mix"]], [["obj", 3, 1]],
+              [["str", 2, "a"], ["str", 3, "a"]], [["str", 4, "a"], ["obj", 1, 2]],
+              [["str", 1, "a"], ["str", 2, "mix"], ["str", 3, "a"]], [["obj", 2, 5], ["str", 6, "a"], ["obj", 0, 0]]]
+    for msgs in shapes:
+        n = len(poll_stream(env, msgs)[0])
+        cutsets = [[i] for i in range(1, n)] + [list(p) for p in itertools.combinations(range(1, n), 2)]
+        if len(cutsets) > ctx.scale(160, 100000):
+            cutsets = cutsets[:n - 1] + rng.sample(cutsets[n - 1:], ctx.scale(160, 100000) - (n - 1))
+        for cs in cutsets:
+            pts = [0] + cs
+            for style in ("once", "drain"):
+                for first in ((True, False) if len(cs) == 1 else (rng.random() < 0.5,)):
+                    ops = polls("once", 0) if first else []
+                    for a, b in zip(pts, pts[1:]):
+                        ops = ops + [["A", b - a]] + polls(style, len(msgs))
+                    yield case("split-%d" % len(msgs), msgs, ops, maxsize=rng.choice([1024, 1024, 1, 3]))
+    # (2) random: 1-4 messages up to 64 KiB, random arrivals, polls and blocking receives mixed
+    for i in range(ctx.scale(300, 3000)):
+        msgs = []
+        for _ in range(rng.randint(1, 4)):
+            kind = rng.choice(["str", "str", "obj"])
+            size = rng.choice([1, 2, 7, 100, rng.randint(1, 3000), rng.randint(1, 3000)] + ([65536] if i % 40 == 0 else []))
+            msgs.append([kind, size, rng.choice(["a", "mix"]) if kind == "str" else rng.randrange(1000)])
+        n = len(poll_stream(env, msgs)[0])
+        ops, left = [], n
+        while left > 0 and len(ops) < 40:
+            r = rng.random()
+            if r < 0.45:
+                k = min(left, rng.choice([1, 2, 3, 4, 5, 9, 100, 1460, rng.randint(1, n)]))
+                ops.append(["A", k])
+                left -= k
+            elif r < 0.85:
+                ops.append(["P"])
+            else:
+                ops.append(["R"])
+        real = i % 6 == 0
+        yield case("random-real" if real else "random", msgs, ops, maxsize=rng.choice([1024, 1024, 1, 7, 4096, 100000]),
+                   transport="real" if real else "scripted")
 
 
 # ----------------------------------------------------------------------------
@@ -1018,12 +1210,18 @@ def exec_server_err(env, case):
     class RecHandler(env.SubroutineHandler):
         def handle_netqasm_message(self, msg_id, msg):
             idx = len(log)
-            log.append({"c": feeding[0], "id": msg_id, "msg": bytes(msg), "raw": env.last_raw[0], "end": None})
+            c = feeding[0]
+            j = sum(1 for e in log if e["c"] == c)
+            log.append({"c": c, "id": msg_id, "msg": bytes(msg), "raw": env.last_raw[0], "end": None})
+            plan = conns[c]["msgs"][j] if c is not None and j < len(conns[c]["msgs"]) else None
+            if plan is not None and plan["kind"] == "scripted" and plan["id"] == msg_id:
+                script[0] = (plan, idx)        # this message's type handler is the scripted one (see `dispatch`)
             tok = cur.set(idx)
             try:
                 d = super().handle_netqasm_message(msg_id=msg_id, msg=msg)
             finally:
                 cur.reset(tok)
+                script[0] = None
 
             def ended(r):          # observation only: the result/failure is passed on unchanged
                 if isinstance(r, env.Failure):
@@ -1049,9 +1247,33 @@ def exec_server_err(env, case):
             waiting.append((d, "new", cur.get()))
             return d
 
+    script = [None]
+
+    def scripted(plan, idx):
+        """the type handler of a message of kind "scripted": the harness holds its Deferred (if it suspends) and says
+        how it ends; everything around it (handle_netqasm_message, _handle_message, _mark_message_finished, the
+        callbacks dataReceived attaches, log_error, _return_msg) is the real code"""
+        if plan["async"]:
+            d = env.Deferred()
+            waiting.append((d, "script", idx))
+            yield d                                 # an errback of the harness is raised here
+        if plan["end"] == "escapes":
+            raise RuntimeError("scripted failure of message %d" % plan["id"])
+
+    def dispatch(real):
+        def handler(msg):
+            if script[0] is None:
+                return real(msg)
+            plan, idx = script[0]
+            script[0] = None
+            return scripted(plan, idx)
+        return handler
+
     factory = env.NetQASMFactory(Host, "Alice", QNet, RecHandler)
     factory.set_virtual_node(Root())
     factory.stop = lambda: stops.append(1)          # reactor.stop(): observed
+    for mtype, real in list(factory.backend._message_handlers.items()):
+        factory.backend._message_handlers[mtype] = dispatch(real)
     executor = factory.backend._executor
     real_hce = executor._handle_command_exception
 
@@ -1249,7 +1471,135 @@ def gen_server_err_cases(env, ctx):
         chunks = [err_cuts(rng, env, cn) for cn in conns]
         yield case("err-badframe-%s" % kind, conns, interleave_err(rng, env, conns, chunks, rng.random() < 0.3))
 
-EXEC = {"server": exec_server, "client": exec_client, "socket": exec_socket, "servererr": exec_server_err}
+
+def scripted_msg(env, rng, mid, app, i, outcome):
+    """a well-formed host message of any type whose type handler is played by the harness (`scripted` in
+    exec_server_err).  outcome: "ok" | "fail" (ends in the read that delivers it) | "ok-late" | "fail-late" (suspends on
+    a Deferred of the harness, which is fired later: the failure reaches the errback attached by dataReceived after
+    dataReceived has gone on to the following messages, or has returned)"""
+    M = env.M
+    payload = rng.choice([
+        lambda: bytes(M.OpenEPRSocketMessage(app, i % 8, rng.randrange(3), rng.randrange(8), 100)),
+        lambda: bytes(M.InitNewAppMessage(app_id=app + 10 * i, max_qubits=1 + i % 4)),
+        lambda: bytes(M.StopAppMessage(app_id=app + 10 * i)),
+        lambda: sub_text(env, app, ["set R0 %d" % (i + 1), "ret_reg R0"]),
+    ])()
+    return emsg(mid, payload, "scripted", end="escapes" if outcome.startswith("fail") else "ok",
+                is_async=outcome.endswith("late"))
+
+
+OUTCOMES = ["ok", "fail", "ok-late", "fail-late"]
+
+
+def interleave_defer(rng, env, conns, chunks_per_conn):
+    """events: all connects, every connection's chunks in order, one ["K", c, j] per suspended handler at any time
+    after its start, in ANY order relative to the other suspended handlers and to the later reads"""
+    k = len(conns)
+    offs = [err_offsets(env, cn) for cn in conns]
+    evs = [["C"] for _ in range(k)]
+    queues = [list(ch) for ch in chunks_per_conn]
+    delivered, done_msgs, owed = [0] * k, [0] * k, []
+    eager = rng.random()
+    while any(queues) or owed:
+        moves = [c for c in range(k) if queues[c]]
+        if owed and (not moves or rng.random() < eager):
+            evs.append(["K"] + list(owed.pop(rng.randrange(len(owed)))))
+            continue
+        c = rng.choice(moves)
+        ch = queues[c].pop(0)
+        delivered[c] += len(ch)
+        evs.append(["D", c, ch.hex()])
+        n = sum(1 for o in offs[c] if o <= delivered[c])
+        owed += [(c, j) for j in range(done_msgs[c], n) if conns[c]["msgs"][j]["async"]]
+        done_msgs[c] = n
+    return evs
+
+
+def gen_server_defer_cases(env, ctx):
+    """several complete messages in ONE read, any subset of them failing, each at once or later (part servererr, same
+    executor and oracle; the completion order is an input of the model too: events K<i>/Y<i>)"""
+    rng = ctx.rng
+    M = env.M
+
+    def case(cls, conns, events):
+        return {"part": "servererr", "class": cls, "conns": conns, "events": events}
+    # (1) exhaustive: 2 and 3 messages in one read x every outcome of each x every order of firing the suspended ones;
+    #     3 messages also as two reads (2+1, 1+2, the cut inside the second message), firing before/after the second read
+    for n in (2, 3):
+        for outs in itertools.product(OUTCOMES, repeat=n):
+            mid = rng.choice([0, 4, rng.randrange(2 ** 32 - 4)])
+            msgs = [scripted_msg(env, rng, mid + i, 0, i, o) for i, o in enumerate(outs)]
+            frames = [env.frame(m["id"], bytes.fromhex(m["payload"])) for m in msgs]
+            s = b"".join(frames)
+            late = [i for i, o in enumerate(outs) if o.endswith("late")]
+            for order in itertools.permutations(late):
+                ks = [["K", 0, j] for j in order]
+                yield case("defer-one-read-%d" % n, [{"msgs": msgs}], [["C"], ["D", 0, s.hex()]] + ks)
+            if n == 3 and late:
+                a, b = len(frames[0]), len(frames[0]) + len(frames[1])
+                for cutpos in (a, b, a + rng.randrange(1, len(frames[1]))):
+                    order = list(late)
+                    rng.shuffle(order)
+                    started = [j for j in order if err_offsets(env, {"msgs": msgs})[j] <= cutpos]
+                    nearly = rng.randrange(len(started) + 1)
+                    evs = [["C"], ["D", 0, s[:cutpos].hex()]] + [["K", 0, j] for j in started[:nearly]] + \
+                        [["D", 0, s[cutpos:].hex()]] + [["K", 0, j] for j in order if j not in started[:nearly]]
+                    yield case("defer-two-reads-3", [{"msgs": msgs}], evs)
+    # (2) the same through the real handlers: an application holding a qubit is stopped (the backend is asked to measure
+    #     the qubit away and answers later, possibly refusing) and further messages follow the StopApp in the SAME read
+    for end in ("escapes", "ok"):
+        for follow in itertools.product(["init", "epr", "stop-unknown", "sub-garbage", "sub-noapp"], repeat=2):
+            mid = rng.choice([0, 9, rng.randrange(2 ** 32 - 6)])
+            msgs = [emsg(mid, bytes(M.InitNewAppMessage(app_id=0, max_qubits=2)), "init"),
+                    emsg(mid + 1, sub_text(env, 0, ["set Q0 0", "qalloc Q0"]), "sub-qalloc", is_async=True),
+                    emsg(mid + 2, bytes(M.StopAppMessage(app_id=0)), "stop-qubit", end=end, is_async=True, barrier=True)]
+            for i, f in enumerate(follow):
+                if f == "init":
+                    msgs.append(emsg(mid + 3 + i, bytes(M.InitNewAppMessage(app_id=1 + i, max_qubits=1)), "init"))
+                elif f == "epr":
+                    msgs.append(emsg(mid + 3 + i, bytes(M.OpenEPRSocketMessage(0, i, 1, 1, 100)), "epr"))
+                else:
+                    payload, e2, regs = failing_payload(env, rng, 0, f)
+                    msgs.append(emsg(mid + 3 + i, payload, f, end=e2, regs=regs))
+            frames = [env.frame(m["id"], bytes.fromhex(m["payload"])) for m in msgs]
+            yield case("late-midread-real", [{"msgs": msgs}],
+                       [["C"], ["D", 0, b"".join(frames[:2]).hex()], ["K", 0, 1],
+                        ["D", 0, b"".join(frames[2:]).hex()], ["K", 0, 2]])
+    # (3) random: 1-3 connections x 2-6 messages (scripted ones among real succeeding ones), few cuts (whole stream,
+    #     cuts at message boundaries, a random cut), suspended handlers fired in any order, any time later
+    for _ in range(ctx.scale(350, 5000)):
+        k = rng.choice([1, 1, 2, 3])
+        conns = []
+        for a in range(k):
+            n = rng.randint(2, 6)
+            mid = rng.choice([0, 1, 100 * a, rng.randrange(2 ** 32 - n - 2)]) if k == 1 else \
+                rng.choice([100 * a, 1000 * a + rng.randrange(50)])
+            weights = rng.choice([OUTCOMES, ["ok", "fail-late", "fail-late", "ok-late"], ["fail", "fail-late", "ok"]])
+            msgs = [emsg(mid, bytes(M.InitNewAppMessage(app_id=a, max_qubits=5)), "init")]
+            for i in range(1, n):
+                if rng.random() < 0.2:
+                    v = 1000 * (a + 1) + i
+                    msgs.append(emsg(mid + i, sub_text(env, a, ["set R0 %d" % v, "ret_reg R0"]), "sub", regs=[v]))
+                else:
+                    msgs.append(scripted_msg(env, rng, mid + i, a, i, rng.choice(weights)))
+            conns.append({"msgs": msgs})
+        chunks = []
+        for cn in conns:
+            s = stream_of(env, cn["msgs"])
+            style = rng.random()
+            if style < 0.4:
+                cuts = []
+            elif style < 0.75:
+                bounds = err_offsets(env, cn)[:-1]
+                cuts = sorted(rng.sample(bounds, rng.randint(1, min(2, len(bounds)))))
+            else:
+                cuts = sorted(rng.sample(range(1, len(s)), rng.randint(1, 2)))
+            chunks.append(cut(s, cuts))
+        yield case("defer-random-%d" % k, conns, interleave_defer(rng, env, conns, chunks))
+
+
+EXEC = {"server": exec_server, "client": exec_client, "socket": exec_socket, "servererr": exec_server_err,
+        "sockpoll": exec_sockpoll}
 WHAT = {
     "server:handled": "a complete host message was not handled (once, in order) when its last byte had arrived",
     "server:payload": "a host message was handed to the handler with other bytes than were sent",
@@ -1261,6 +1611,9 @@ WHAT = {
     "client:extra": "_handle_reply produced something from an empty stream",
     "socket:stream": "a receive on an application socket did not return exactly the next message sent",
     "socket:phantom": "a receive returned a message although nothing was outstanding",
+    "sockpoll:stream": "after non-blocking polls of a partly arrived message, a receive did not return exactly the next "
+                       "message sent",
+    "sockpoll:poll": "a non-blocking receive that finds no complete message did not answer 'nothing yet' (BlockingIOError)",
     "servererr:unanswered": "a complete host message whose handling failed got no completion reply on its connection",
     "servererr:node-stopped": "the failure of one message stopped the node's reactor (every connection of the node)",
     "servererr:handled": "a complete host message was not handled (once, in order) when its last byte had arrived "
@@ -1280,6 +1633,8 @@ def case_size(case):
         return sum(len(e[2]) // 2 for e in case["events"] if e[0] == "D") + 3 * len(case["events"])
     if case["part"] == "client":
         return sum(len(str(g)) for g in case["groups"]) + len(case["choices"])
+    if case["part"] == "sockpoll":
+        return sum(m[1] + 8 for m in case["msgs"]) + 2 * len(case["ops"]) + (50 if case["transport"] == "real" else 0)
     return sum(op[1][1] if op[0] == "S" else 1 for op in case["ops"]) + len(case.get("choices", []))
 
 
@@ -1293,13 +1648,18 @@ def run(ctx):
                 "interleavings x adversarial read prefixes (1 B .. 64 KiB), real socketpair; servererr: each kind of failing "
                 "message alone, every single cut and sampled double cuts of init/failing/succeeding, random 1-8 messages x "
                 "1-3 connections with 5 kinds of synchronous failure and 2 of failure after a suspension, one connection "
-                "turning into non-message bytes (6 kinds) while the others carry on; non-trivial = more than one "
+                "turning into non-message bytes (6 kinds) while the others carry on; deferred completion: every read of "
+                "2-3 harness-played messages x {ok, fail, ok-late, fail-late}^n x every firing order, 3 messages in two "
+                "reads, StopApp-with-qubit followed by 2 more messages in one read (real handlers), random 1-3 connections "
+                "x 2-6 messages with firing in any order; sockpoll (oracle only): every split point and sampled pairs of "
+                "1-3 short messages with non-blocking polls before/between/after, random streams up to 64 KiB with polls "
+                "and blocking receives mixed, scripted wire and real non-blocking socketpair; non-trivial = more than one "
                 "message or more than one read; distinct by full case content")
     if ctx.replay and isinstance(ctx.replay.get("input"), dict) and ctx.replay["input"].get("part") in EXEC:
         cases = [ctx.replay["input"]]
     else:
         cases = itertools.chain(gen_server_cases(env, ctx), gen_client_cases(env, ctx), gen_socket_cases(env, ctx),
-                                gen_server_err_cases(env, ctx))
+                                gen_server_err_cases(env, ctx), gen_server_defer_cases(env, ctx), gen_sockpoll_cases(env, ctx))
     lines, expect = {"framing": [], "framingerr": []}, {"framing": [], "framingerr": []}
     worst = {}                       # key -> (size, what, case): the smallest failing input per signature
     for case in cases:
@@ -1315,13 +1675,18 @@ def run(ctx):
         elif part == "servererr":
             line, impl = server_err_lines(env, case, obs)
             nontrivial = sum(len(c["msgs"]) for c in case["conns"]) > 1 or len(case["events"]) > 2
+        elif part == "sockpoll":
+            line, impl = None, None                # oracle only
+            nontrivial = len(case["ops"]) > 1
         else:
             line, impl = socket_lines(env, case, obs)
             nontrivial = len(case["ops"]) > 2
         res.case({k: v for k, v in case.items() if k != "class"}, nontrivial=nontrivial)
         res.count("%s:%s" % (part, case.get("class", "replay")))
         model = "framingerr" if part == "servererr" else "framing"
-        if line is None:
+        if part == "sockpoll":
+            res.count("sockpoll:oracle-only (no partial arrival in the driver's line protocol)")
+        elif line is None:
             res.count("servererr:tie-skipped (a frame cut out of garbage is still suspended)")
         else:
             lines[model].append(line)
@@ -1331,7 +1696,8 @@ def run(ctx):
             sz = case_size(case)
             if key not in worst or sz < worst[key][0]:
                 worst[key] = (sz, "%s — %s" % (WHAT.get(key, key), detail), case)
-    first = ["server:handled", "server:route", "socket:stream", "client:reassembly", "server:payload", "servererr:unanswered"]
+    first = ["server:handled", "server:route", "socket:stream", "client:reassembly", "server:payload", "servererr:unanswered",
+             "sockpoll:stream"]
     for key in sorted(worst, key=lambda k: (first.index(k) if k in first else len(first), k)):
         _, what, case = worst[key]
         res.violation(key, what, case)
